@@ -14,13 +14,13 @@ RECT_FAMILIES = ['ortho-1d', 'ortho-2d', 'ortho-3d', 'skew-2d', 'skew-3d',
                  'fill-rotation', 'lat-trcl', 'container-rot',
                  'container-small', 'container-trcl', 'rotated-cell',
                  'nested', 'rpp-cell', 'box-cell', 'paren-pairs',
-                 'planes-with-tr']
+                 'planes-with-tr', 'planes-implicit', 'shorthand-long']
 HEX_FAMILIES = ['regular-6', 'regular-8', 'irregular-6', 'irregular-8',
                 'rotated-6', 'rotated-8', 'handed-minus', 'handed-plus',
                 'swap-last', 'cli-single', 'array-own-zero', 'fill-rotation',
                 'container-rot', 'flip-axial', 'nonadjacent-6',
                 'nonadjacent-8', 'nested', 'side-planes-with-tr', 'paren-pairs',
-                'two-lattices', 'two-pitches', 'oblique-8']
+                'two-lattices', 'two-pitches', 'oblique-8', 'planes-implicit']
 
 LAT_U = 50          # universe of the lattice cell
 LAT_CELL = 500
@@ -153,16 +153,77 @@ def _with_shorthand(arr):
     return out
 
 
+def _planes_implicit(bld, lat):
+    '''Write the planes of the lattice cell as surfaces moved by the TRCL of
+    another cell: the cards describe the planes somewhere else, a cell `c`
+    (of a universe nobody fills) carries the TRCL that brings them to their
+    place, and the lattice cell refers to them as 1000*c + s.'''
+    rng = bld.rng
+    deck = bld.deck
+    mot = motion_of_class(rng, rng.choice(['translation', 'generic',
+                                           'quarter', 'flip-z']))
+    ids = sorted({leaf[1] for leaf in M.expr_leaves(lat.geom)})
+    for sur in deck.surfs:
+        if sur.id not in ids:
+            continue
+        if sur.kind in ('px', 'py', 'pz'):
+            nrm = np.eye(3)['xyz'.index(sur.kind[1])]
+            dval = float(sur.params[0])
+        else:
+            nrm = np.array(sur.params[:3], dtype=float)
+            dval = float(sur.params[3])
+        # x = O + B^T x'  =>  (B n).x' = d - n.O
+        new_n = mot.b @ nrm
+        new_d = dval - float(nrm @ mot.o)
+        if np.array_equal(mot.b, np.eye(3)) and sur.kind != 'p':
+            sur.params = [new_d]
+        else:
+            sur.kind = 'p'
+            sur.params = [float(v) for v in new_n] + [new_d]
+    # (cell 1 half of the time: the implicit numbers 1001... are then the
+    # first numbers above the largest surface number a deck may use, and the
+    # container takes another number, see finish())
+    owner = rng.choice([1, 1, 1, 2, 3, 5, 7])
+    deck.implicit_owner = owner
+    inline = rng.random() < 0.5
+    if inline:
+        spec = tr_spec(rng, mot, 'inline12')
+    else:
+        tid = bld.next_tr
+        bld.next_tr += 1
+        deck.trs.append(tr_card(rng, tid, mot, rng.choice(['12', 'star'])))
+        spec = M.TrSpec(number=tid)
+    mat, rho = bld.material()
+    deck.cells.append(M.Cell(owner, mat=mat, rho=rho,
+                             geom=M.AND(*[M.S(-sid) for sid in ids]),
+                             imp={'n': '1'}, u=99, trcl=spec))
+
+    def swap(expr):
+        if expr[0] == 's':
+            return ('s', 1000 * owner + expr[1], expr[2], expr[3])
+        if expr[0] == '^':
+            return expr
+        if expr[0] in ('#', 'g'):
+            return (expr[0], swap(expr[1]))
+        return (expr[0],) + tuple(swap(sub) for sub in expr[1:])
+    lat.geom = swap(lat.geom)
+    deck.tags.add('lattice.planes-implicit')
+
+
 def finish(bld, container_geom, lat_cell, fill_of_container, trcl=None,
            extra_level0=()):
     deck = bld.deck
+    if deck.title.endswith('planes-implicit'):
+        _planes_implicit(bld, lat_cell)
     mat, rho = bld.material()
-    cont = M.Cell(1, mat=mat, rho=rho, geom=container_geom, imp={'n': '1'},
+    cid = 6 if getattr(deck, 'implicit_owner', None) == 1 else 1
+    deck.container_id = cid
+    cont = M.Cell(cid, mat=mat, rho=rho, geom=container_geom, imp={'n': '1'},
                   fill=fill_of_container, trcl=trcl)
     deck.cells.insert(0, cont)
     deck.surfs.append(M.Surf(WORLD_SURF, 'so', [deck.world]))
     mat, rho = bld.material()
-    rest = [M.CELLC(1)] + [M.CELLC(c.id) for c in extra_level0]
+    rest = [M.CELLC(cid)] + [M.CELLC(c.id) for c in extra_level0]
     for cel in extra_level0:
         deck.cells.insert(1, cel)
     deck.cells.insert(1, M.Cell(90, mat=mat, rho=rho,
@@ -310,13 +371,24 @@ def _fill_for_lattice(bld, family, ranges3, ndim, universes, cell_id):
     zero = family in ('array-zero', 'array-own-zero')
     arr = _array(rng, ranges3, universes, own=own, zero=zero)
     fil = M.Fill(ranges=list(ranges3), array=arr)
-    if family == 'shorthand':
+    if family in ('shorthand', 'shorthand-long'):
         # long runs, rendered with nR
         arr2 = []
         for k, val in enumerate(arr):
             arr2.append(arr[(k // 3) * 3])
+        if rng.random() < 0.6:
+            # a run of "no element here" or of the lattice's own universe:
+            # what is repeated is the value, whatever it is
+            val = rng.choice([0, 0, LAT_U])
+            start = 3 * rng.randrange(max(1, len(arr2) // 3))
+            for k in range(start, min(start + 3, len(arr2))):
+                arr2[k] = val
         fil.array = arr2
         fil.render_array = _with_shorthand(arr2)
+    elif rng.random() < 0.3:
+        # any array may be written with the repeat shorthand where two
+        # neighbours are equal (zeros included)
+        fil.render_array = _with_shorthand(arr)
     return fil
 
 
@@ -332,7 +404,7 @@ def build_rect(rng, family):
         ndim = 1
     elif family in ('ortho-3d', 'skew-3d'):
         ndim = 3
-    elif family in ('ortho-2d', 'skew-2d'):
+    elif family in ('ortho-2d', 'skew-2d', 'shorthand-long'):
         ndim = 2
     else:
         ndim = rng.choice([1, 2, 2, 3])
@@ -394,6 +466,11 @@ def build_rect(rng, family):
                                     rng.choice(['3', '12'])))
             sur.tr = tid
     ranges = _ranges(rng, ndim)
+    if family == 'shorthand-long':
+        # about a hundred elements, written with thirty or more repeats
+        lo1, lo2 = rng.randint(-6, -3), rng.randint(-5, -3)
+        ranges = [(lo1, lo1 + rng.randint(9, 11)), (lo2, lo2 + 8)]
+        deck.tags.add('lat.long-array')
     ranges3 = ranges + [(0, 0)] * (3 - ndim)
     nuni = rng.randint(2, 4)
     universes = list(range(1, nuni + 1))
@@ -469,7 +546,7 @@ def _build_macro_cell(bld, family):
 
 def _element_hints(deck, lat, truth, origin, ranges, cfill, trcl):
     ref = M.Reference(deck)
-    cont = deck.cell(1)
+    cont = deck.cell(getattr(deck, 'container_id', 1))
     mot = ref.fill_motion(cont)
     lmot = deck.motion_of(lat.trcl)
     pts = []
